@@ -134,4 +134,70 @@ theorem http2Match_mono : Monotone http2Match := by
       have hle : p.length ≤ (p ++ e).length := by simp
       rw [if_neg (key _ hle)]
 
+/-! ### selection over an ordered scope -/
+
+/-- at most one matcher of the scope can succeed on extensions of `p` (names of successful matchers coincide) -/
+def Exclusive (ms : List (String × (Bytes → MR))) (p : Bytes) : Prop :=
+  ∀ e m1 m2, m1 ∈ ms → m2 ∈ ms → m1.2 (p ++ e) = .success → m2.2 (p ++ e) = .success → m1.1 = m2.1
+
+theorem find_success_name (ms : List (String × (Bytes → MR))) (q : Bytes) (m : String × (Bytes → MR))
+    (h : ms.find? (fun m => m.2 q == .success) = some m) : m ∈ ms ∧ m.2 q = .success := by
+  have h1 := List.mem_of_find?_eq_some h
+  have h2 := List.find?_some h
+  exact ⟨h1, by simpa using h2⟩
+
+/-- once a protocol has been selected on a prefix, every longer prefix selects the same protocol — provided the
+matchers are monotone and no second matcher of the scope can succeed on the stream. -/
+theorem select_proto_final (ms : List (String × (Bytes → MR))) (hm : ∀ m ∈ ms, Monotone m.2)
+    (p e : Bytes) (hx : Exclusive ms p) (n : String) (h : select ms p = .proto n) :
+    select ms (p ++ e) = .proto n := by
+  unfold select at h ⊢
+  cases hf : ms.find? (fun m => m.2 p == .success) with
+  | none => rw [hf] at h; simp only at h; split at h <;> simp at h
+  | some m =>
+    rw [hf] at h
+    simp only [SelRes.proto.injEq] at h
+    have ⟨hmem, hs⟩ := find_success_name ms p m hf
+    have hs' : m.2 (p ++ e) = .success := by
+      rw [hm m hmem p e (by rw [hs]; simp), hs]
+    cases hf' : ms.find? (fun m => m.2 (p ++ e) == .success) with
+    | none =>
+      have := List.find?_eq_none.mp hf' m hmem
+      simp [hs'] at this
+    | some m' =>
+      have ⟨hmem', hs2⟩ := find_success_name ms (p ++ e) m' hf'
+      have := hx e m m' hmem hmem' hs' hs2
+      simp only [SelRes.proto.injEq]
+      rw [← this, h]
+
+/-- a failed selection is final (no exclusivity needed) -/
+theorem select_failed_final (ms : List (String × (Bytes → MR))) (hm : ∀ m ∈ ms, Monotone m.2)
+    (p e : Bytes) (h : select ms p = .failed) : select ms (p ++ e) = .failed := by
+  unfold select at h ⊢
+  cases hf : ms.find? (fun m => m.2 p == .success) with
+  | some m => rw [hf] at h; simp at h
+  | none =>
+    rw [hf] at h
+    simp only at h
+    split at h <;> simp at h
+    rename_i hany
+    have hall : ∀ m ∈ ms, m.2 p = .failed := by
+      intro m hmem
+      have h1 := List.find?_eq_none.mp hf m hmem
+      have h2 : ¬ (m.2 p == .again) = true := by
+        intro hc; apply hany; exact List.any_eq_true.mpr ⟨m, hmem, hc⟩
+      cases hv : m.2 p <;> simp_all
+    have hall' : ∀ m ∈ ms, m.2 (p ++ e) = .failed := by
+      intro m hmem
+      rw [hm m hmem p e (by rw [hall m hmem]; simp), hall m hmem]
+    have hf' : ms.find? (fun m => m.2 (p ++ e) == .success) = none := by
+      apply List.find?_eq_none.mpr
+      intro m hmem; simp [hall' m hmem]
+    have hany' : ¬ (ms.any (fun m => m.2 (p ++ e) == .again) = true) := by
+      intro hc
+      obtain ⟨m, hmem, hc⟩ := List.any_eq_true.mp hc
+      simp [hall' m hmem] at hc
+    rw [hf']
+    simp only [hany', Bool.false_eq_true, ↓reduceIte]
+
 end MosnVerif.Model.Match
